@@ -105,6 +105,7 @@ def main(argv=None):
     ap.add_argument("--only", default=None, help="substring filter on case names (debugging; evidence not written)")
     ap.add_argument("--jobs", type=int, default=min(16, os.cpu_count() or 1))
     ap.add_argument("--no-selfcheck", action="store_true")
+    ap.add_argument("--no-evidence", action="store_true", help="do not rewrite evidence/<id>.json (used when trying seeded changes in a scratch tree)")
     ap.add_argument("--verbose", "-v", action="store_true")
     a = ap.parse_args(argv)
     prop = a.prop
@@ -249,7 +250,7 @@ def main(argv=None):
         print("INCONCLUSIVE property=%s %s" % (prop, pmsg))
 
     wall = time.time() - t0
-    if not a.only:
+    if not a.only and not a.no_evidence:
         write_evidence(prop, a.tier, seed, mod, cases, results, violations, known_seen, problems, wit_ok, len(wit_jobs),
                        self_n if selfh is not None else None, wall, active_known)
     tot_o = sum(r["obligations"] for r in results)
